@@ -56,7 +56,12 @@ func Run(id string, start time.Time) int {
 
 	// 2. build the worker against the repository's working tree
 	worker := filepath.Join(scratch, "p09worker")
-	cmd := exec.Command("go", "build", "-tags", "verif", "-o", worker, "./p09/worker")
+	args := []string{"build", "-tags", "verif"}
+	if mf := os.Getenv("VERIF_MODFILE"); mf != "" {
+		// mutant runs: an alternative go.mod whose replace points at a scratch copy of the repository
+		args = append(args, "-modfile="+mf)
+	}
+	cmd := exec.Command("go", append(args, "-o", worker, "./p09/worker")...)
 	cmd.Dir = filepath.Join(h.VerifDir(), "harness")
 	cmd.Env = h.GoEnv()
 	if b, err := cmd.CombinedOutput(); err != nil {
